@@ -8,8 +8,8 @@
 
   Evaluated on one case = a history of (operation, observed answer) pairs.  The checker keeps
   what the *acknowledged* operations established — the password last set per user, which users
-  are active, which tokens exist (and whether they are active), which sessions exist (and whether
-  they were created already expired) — in plain finite maps, and judges
+  are active, which tokens exist (and whether they are active), which unexpired sessions exist
+  — in plain finite maps, and judges
 
    * every successful ComparePassword: the candidate is the password last set for that user;
    * every successful CompareAndSetPassword: the old password verifies against the password last
@@ -39,13 +39,11 @@ structure Track where
   pw : List (Nat × String) := []                      -- password most recently set
   users : List (Nat × Bool) := []                     -- existing users: active?
   toks : List (Nat × (String × Bool × Nat)) := []     -- existing tokens: token, active?, user
-  sess : List (String × (Nat × Bool)) := []           -- existing sessions: user, expired?
+  sess : List (String × Nat) := []                    -- existing, unexpired sessions: key ↦ user
   ok : Bool := true
   why : String := ""
 
 def Track.fail (t : Track) (why : String) : Track := if t.ok then { t with ok := false, why := why } else t
-
-def lowerAscii (c : Char) : Char := if 'A' ≤ c ∧ c ≤ 'Z' then Char.ofNat (c.toNat + 32) else c
 
 /-- the request presents token `t`: `Authorization: <scheme> <t>`, scheme Token or Bearer in any case -/
 def presents (hdr : Option String) (t : String) : Bool :=
@@ -53,8 +51,8 @@ def presents (hdr : Option String) (t : String) : Bool :=
   | none => false
   | some h =>
     let cs := h.toList
-    ((cs.take 6).map lowerAscii = "token ".toList && String.ofList (cs.drop 6) = t) ||
-    ((cs.take 7).map lowerAscii = "bearer ".toList && String.ofList (cs.drop 7) = t)
+    ((cs.take 6).map Char.toLower = "token ".toList && String.ofList (cs.drop 6) = t) ||
+    ((cs.take 7).map Char.toLower = "bearer ".toList && String.ofList (cs.drop 7) = t)
 
 def first72 (s : String) : String := String.ofList (s.toList.take 72)
 
@@ -62,9 +60,10 @@ def first72 (s : String) : String := String.ofList (s.toList.take 72)
 def justified (t : Track) (hdr cookie : Option String) (uid : Nat) : Bool :=
   (t.toks.any (fun e => presents hdr e.2.1 && e.2.2.1 && e.2.2.2 = uid) ||
    (match cookie with
-    | some k => KV.get t.sess k = some (uid, false)
+    | some k => KV.get t.sess k = some uid
     | none => false)) &&
-  KV.get t.users uid = some true
+  -- never on behalf of an inactive (or deleted) user; id 0 means "no user" (JWT-style authorizers)
+  (uid = 0 || KV.get t.users uid = some true)
 
 def trackStep (t : Track) : Op × Ans → Track
   | (.cfg .., .ok) => {}
@@ -85,7 +84,7 @@ def trackStep (t : Track) : Op × Ans → Track
     | some (tok, _, u) => { t with toks := KV.put t.toks id (tok, a, u) }
     | none => t
   | (.dt id, .ok) => { t with toks := KV.del t.toks id }
-  | (.cs _ long, .okKey k u) => { t with sess := KV.put t.sess k (u, !long) }
+  | (.cs _ long, .okKey k u) => if long then { t with sess := KV.put t.sess k u } else t   -- `exp`: born expired
   | (.xs k, .ok) => { t with sess := KV.del t.sess k }
   | (.req h c, .http _ reached pset uid) =>
     if reached && pset = some true then
